@@ -26,6 +26,7 @@ Spaces (see DESIGN.md C07):
                          rx and tx of the selected pair
 """
 import array
+import importlib
 import json
 import os
 import re
@@ -81,12 +82,93 @@ def hsn0_fns(n):
     return s
 
 
-def _toolkit():
+def _toolkit(fresh=False):
+    """gsm_shared of the tree.  fresh=True (every worker task): the module is re-executed, so that
+    class-/module-level state left behind by earlier tasks of the same worker process is gone and a
+    task's outcome is a function of its own call sequence only (deterministic for every VERIF_SEED,
+    reproducible in a fresh replay process)."""
     from vlib import world
     if world.TOOLKIT not in sys.path:
         sys.path.insert(0, world.TOOLKIT)
     import gsm_shared
+    if fresh:
+        importlib.reload(gsm_shared)
     return gsm_shared
+
+
+def _with_task(res, task):
+    for v in res.get("viol", []):
+        if isinstance(v[1], dict) and str(v[1].get("impl", "")).startswith(("python", "transceiver")):
+            v[1].setdefault("task", task)
+    return res
+
+
+# ---------------------------------------------------------------------------------------------
+# order independence, leg 1: a fixed call sequence, run first in the parent process
+
+SEQ_OBJECTS = ((0, 3, 37), (5, 1, 37), (63, 0, 37), (17, 4, 5))        # (hsn, maio, N)
+
+
+def _seq_fns():
+    """Frame numbers of the fixed call sequence: hyperframe wrap, steps back over superframe boundaries,
+    two interleaved streams a few frames apart crossing a boundary, descending runs, LCG jumps."""
+    seq = [HYPER - 2, HYPER - 1, 0, 1, HYPER - 1, 0, 2, HYPER - 3]
+    for k in (1, 2, 63, 64, 1024, 2047):
+        b = k * SUPER
+        seq += [b + 1, b, b - 1, b - 2, b, b + SUPER - 1, b - 1, b + SUPER, b, b - SUPER, b + 1]
+        for i in range(-5, 6):
+            seq += [b + i, b + i - 4]
+    seq += list(range(2 * SUPER + 4, SUPER - 4, -1))
+    seq += list(range(HYPER - 1, HYPER - SUPER - 9, -5))
+    seq += list(range(65 * SUPER, 0, -SUPER + 1))
+    x = 20261003
+    for _ in range(2500):
+        x = (x * 1103515245 + 12345) % (1 << 31)
+        seq.append(x % HYPER)
+    return [fn % HYPER for fn in seq]
+
+
+def _seq_calls():
+    """[(object index, fn)]: every object is asked for every fn, the starting object rotates"""
+    calls = []
+    for i, fn in enumerate(_seq_fns()):
+        for j in range(len(SEQ_OBJECTS)):
+            calls.append(((i + j) % len(SEQ_OBJECTS), fn))
+    return calls
+
+
+def _seq_leg(upto=None):
+    """Runs the sequence from process start (nothing has called the toolkit before).
+    -> (number of calls, [(index, hsn, maio, n, fn, previous call, got, want MAI)])"""
+    gs = _toolkit()
+    objs = [(h, m, n, make_ma(n), gs.HoppingParams(h, m, make_ma(n))) for h, m, n in SEQ_OBJECTS]
+    calls = _seq_calls()
+    if upto is not None:
+        calls = calls[:upto + 1]
+    bad = []
+    for i, (k, fn) in enumerate(calls):
+        h, m, n, ma, hp = objs[k]
+        want = hopping.mai(h, m, n, fn)
+        try:
+            got = hp.resolve(fn)
+        except Exception as e:
+            got = repr(e)
+        if got != ma[want]:
+            bad.append((i, h, m, n, fn, calls[i - 1] if i else None, got, want))
+    return len(calls), bad
+
+
+def _seq_key(h, n):
+    return "C07:python:history:sequence:hsn%s:N=%d" % ("=0" if h == 0 else "!=0", n)
+
+
+def _seq_msg(b):
+    i, h, m, n, fn, prev, got, want = b
+    ma = make_ma(n)
+    return ("call %d of the fixed sequence: HoppingParams(hsn=%d, maio=%d, ma=<%d distinct channels>).resolve(%d) = %r (MA index %r) "
+            "after %s; TS 45.002 6.2.3 gives MAI=%d -> channel %d whatever was asked before"
+            % (i, h, m, n, fn, got, _idx(ma, got),
+               "the call for (hsn, maio, N)=%r fn=%d" % (SEQ_OBJECTS[prev[0]], prev[1]) if prev else "no other call", want, ma[want]))
 
 
 def _build(name):
@@ -144,7 +226,11 @@ def _fw_run(args):
 
 def _py_red(n):
     """Reduced space for one N: python vs spec vs firmware output."""
-    gs = _toolkit()
+    return _with_task(_py_red_(n), ["red", n])
+
+
+def _py_red_(n):
+    gs = _toolkit(fresh=True)
     rc, out, err = cbuild.run(_exe, ["red", n])
     if rc != 0 or len(out) != 64 * SUPER * 4 * 2:
         return {"crash": (["red", n], rc, _san(err.decode()))}
@@ -202,8 +288,12 @@ def _py_red(n):
 def _py_full(arg):
     """Full (unreduced) space for one N and a block of HSN: python vs spec, and python vs python at
     the reduced representative (the reduction the quick tier relies on, checked on the real code)."""
+    return _with_task(_py_full_(arg), ["full"] + list(arg))
+
+
+def _py_full_(arg):
     n, hlo, hhi, maios = arg
-    gs = _toolkit()
+    gs = _toolkit(fresh=True)
     ma = make_ma(n)
     res = {"cov": {"python_full": 0, "python_reduction_compared": 0, "py_mismatch_by_N": {}}, "viol": [], "nviol_extra": 0}
     cov = res["cov"]
@@ -258,7 +348,11 @@ def _py_full(arg):
 
 
 def _py_hsn0(n):
-    gs = _toolkit()
+    return _with_task(_py_hsn0_(n), ["hsn0", n])
+
+
+def _py_hsn0_(n):
+    gs = _toolkit(fresh=True)
     ma = make_ma(n)
     fns = hsn0_fns(n)
     res = {"cov": {"python_hsn0": 0, "python_vs_firmware_compared": 0}, "viol": [], "nviol_extra": 0, "seen": set()}
@@ -291,17 +385,14 @@ def _py_hsn0(n):
     return res
 
 
-_hist_objs = None
-
-
 def _py_hist(fns):
     """Order independence on the Python side: for a fixed FN, HoppingParams objects of *all*
     configurations (two MA contents per (hsn, N, maio)) are resolved one after the other, every
     fifth one twice in a row; each result must be the spec value for that object's own parameters."""
-    global _hist_objs
-    gs = _toolkit()
-    if _hist_objs is None:
-        _hist_objs = []
+    gs = _toolkit(fresh=True)
+    fns = list(fns)
+    _hist_objs = []
+    if True:
         for hsn in range(64):
             for n in range(1, 65):
                 for maio in maio_set(n):
@@ -337,7 +428,7 @@ def _py_hist(fns):
                 seen.add(key)
                 res["nviol_extra"] -= 1
                 prev = _hist_objs[i - 1][:4] if i else None
-                res["viol"].append((key, {"impl": "python-history", "fn": fn},
+                res["viol"].append((key, {"impl": "python-history", "fn": fn, "fns": fns[:fns.index(fn) + 1]},
                                     "with FN=%d fixed and objects of all configurations resolved in turn, "
                                     "HoppingParams(hsn=%d, maio=%d, ma=<%d channels from %d>).resolve(%d) = %r (previous object: hsn/maio/N/base %r); "
                                     "TS 45.002 6.2.3 gives MAI=%d -> channel %d"
@@ -396,7 +487,9 @@ def _trx_one(trx, hsn, maio, n, fns, res):
 def _py_trx(n):
     from vlib import world
     world.install()
+    _toolkit(fresh=True)
     import transceiver
+    importlib.reload(transceiver)          # picks up the re-executed gsm_shared
     world.new_fabric()
     trx = transceiver.Transceiver("127.0.0.1", "127.0.0.1", 5700)
     res = {"cov": {"transceiver_lookups": 0}, "viol": [], "seen_pairs": set()}
@@ -404,7 +497,7 @@ def _py_trx(n):
     for hsn in TRX_HSN:
         for maio in sorted({0, n - 1}):
             _trx_one(trx, hsn, maio, n, fns, res)
-    return res
+    return _with_task(res, ["trx", n])
 
 
 # ---------------------------------------------------------------------------------------------
@@ -416,7 +509,7 @@ def _take_fw(ctx, what, rc, out, err, tot, seen):
             f = dict(p.split("=") for p in line.split()[1:])
             hsn, maio, n, fn = int(f["hsn"]), int(f["maio"]), int(f["n"]), int(f["fn"])
             fl = int(f.get("flavour", 0))
-            ctx.violation(_fwkey(hsn, n), {"impl": "firmware", "hsn": hsn, "maio": maio, "n": n, "fn": fn, "flavour": fl},
+            ctx.violation(_fwkey(hsn, n), {"impl": "firmware", "hsn": hsn, "maio": maio, "n": n, "fn": fn, "flavour": fl, "slice": what},
                           "rfch_get_params(hsn=%d maio=%d N=%d fn=%d, MA contents %s) = channel 0x%04x (MA index %s); "
                           "TS 45.002 6.2.3 gives MAI=%s -> channel 0x%04x (M'>=N branch: %s)"
                           % (hsn, maio, n, fn, FLAVOURS[fl], int(f["fw"]), f["fwidx"], f["spec"], int(f["want"]), f["wrapped"]))
@@ -463,7 +556,7 @@ def _take_hist(ctx, what, rc, out, err, tot):
             exp = "TS 45.002 6.2.3 gives MAI=%s -> channel %s" % (f["spec"], f["want"]) if kind in ("hop", "again") else \
                 "expected channel %s (%s)" % (f["want"], "h0.arfcn of the non-hopping dedicated channel" if kind == "nonhop"
                                                else "ARFCN of the serving cell, no dedicated channel")
-            ctx.violation("C07:firmware:history:%s" % cls, {"impl": "firmware-history", "idx": int(f["idx"])},
+            ctx.violation("C07:firmware:history:%s" % cls, {"impl": "firmware-history", "idx": int(f["idx"]), "lo": int(what[1])},
                           "with FN=%s fixed and the channel description changing between calls (%s), rfch_get_params with "
                           "hsn=%d maio=%s N=%d MA contents %s returns channel %s (MA index %s); %s - the result depends on the call history"
                           % (f["fn"], {"hop": "next hopping configuration", "again": "hopping again after non-hopping / idle",
@@ -500,6 +593,33 @@ def _take_py(ctx, res, seen=None):
 
 def run(ctx):
     global _exe
+    # order independence of the Python side, before anything else in this process touches the toolkit
+    ncalls, seqbad = _seq_leg()
+    ctx.cov["python_sequence_calls"] = ncalls
+    ctx.cov["python_sequence_mismatches"] = len(seqbad)
+    # a mismatch is history dependence only if the same call on a pristine (re-executed) module answers differently;
+    # otherwise it is an ordinary wrong value, which the per-point sweep reports and a single-point replay reproduces
+    done, nhist = set(), 0
+    for bad in seqbad[:200]:
+        i, h, m, n, fn, prev, got, want = bad
+        try:
+            alone = _toolkit(fresh=True).HoppingParams(h, m, make_ma(n)).resolve(fn)
+        except Exception as e:
+            alone = repr(e)
+        if alone != got:
+            nhist += 1
+            key, case = _seq_key(h, n), {"impl": "python-sequence", "index": i}
+            msg = _seq_msg(bad) + "; asked alone in a pristine module it answers %r" % (alone,)
+        else:
+            key, case = _pykey(h, n), {"impl": "python", "hsn": h, "maio": m, "n": n, "fn": fn}
+            msg = _pymsg(h, m, n, fn, got, want)
+        if key not in done:
+            done.add(key)
+            ctx.violation(key, case, msg)
+    ctx.n_violations += max(0, len(seqbad) - len(done))
+    ctx.cov["python_sequence_history_dependent"] = nhist
+    py_sweep = nhist == 0       # per-point results of a history-dependent function would not replay
+    ctx.cov["python_sweep_skipped_history_dependent"] = not py_sweep
     b, _exe = _build("c07")
     try:
         # -- firmware: full space inside the driver, one HSN per slice
@@ -520,21 +640,21 @@ def run(ctx):
 
         # -- python: reduced space, three ways
         pyseen = set()
-        for res in ctx.pmap(_py_red, list(range(1, 65))):
+        for res in (ctx.pmap(_py_red, list(range(1, 65))) if py_sweep else []):
             _take_py(ctx, res, pyseen)
         # -- python: HSN 0
-        for res in ctx.pmap(_py_hsn0, list(range(1, 65))):
+        for res in (ctx.pmap(_py_hsn0, list(range(1, 65))) if py_sweep else []):
             _take_py(ctx, res, pyseen)
         # -- python: full space (quick: the N of RED_N; thorough: every N)
         ns = RED_N if ctx.quick else tuple(range(1, 65))
         blk = 8 if ctx.quick else 16
         fm = {n: ([m for m in maio_set(n) if m in (0, 63)] if ctx.quick else maio_set(n)) for n in ns}
         items = [(n, lo, min(lo + blk, 64), fm[n]) for n in ns for lo in range(1, 64, blk)]
-        for res in ctx.pmap(_py_full, items):
+        for res in (ctx.pmap(_py_full, items) if py_sweep else []):
             _take_py(ctx, res)
         # -- transceiver: rx/tx pair selection
         trxseen = set()
-        for res in ctx.pmap(_py_trx, list(range(1, 65)), chunksize=4):
+        for res in (ctx.pmap(_py_trx, list(range(1, 65)), chunksize=4) if py_sweep else []):
             trxseen.update(res.pop("seen_pairs"))
             ctx.merge(res)
 
@@ -545,7 +665,7 @@ def run(ctx):
         hslices = [["hist", cuts[i], cuts[i + 1]] for i in range(32)]
         for what, (rc, out, err) in zip(hslices, ctx.pmap(_fw_run, hslices)):
             _take_hist(ctx, what, rc, out, err, htot)
-        for res in ctx.pmap(_py_hist, [HIST_FNS_PY[i:i + 4] for i in range(0, len(HIST_FNS_PY), 4)]):
+        for res in (ctx.pmap(_py_hist, [HIST_FNS_PY[i:i + 4] for i in range(0, len(HIST_FNS_PY), 4)]) if py_sweep else []):
             ctx.merge(res)
         ncfg = 64 * sum(len(maio_set(n)) for n in range(1, 65)) * len(HIST_BASES)
         c["history_configurations_per_fn"] = ncfg
@@ -562,7 +682,7 @@ def run(ctx):
         c["distinct_n_mai_outcomes"] = len(fwseen | pyseen)
         c["python_full_N"] = list(ns)
         c["python_evaluations"] = c.get("python_reduced", 0) + c.get("python_hsn0", 0) + c.get("python_full", 0) \
-            + c.get("transceiver_lookups", 0) + c.get("python_history_calls", 0)
+            + c.get("transceiver_lookups", 0) + c.get("python_history_calls", 0) + c["python_sequence_calls"]
         c["evaluations"] = c["firmware_evaluations"] + c["python_evaluations"] + c["firmware_history_hopping_calls"] \
             + c["firmware_history_nonhopping_calls"] + c["firmware_history_serving_cell_calls"]
         c["distinct_nontrivial"] = tot.get("nontrivial", 0)
@@ -572,7 +692,7 @@ def run(ctx):
                      "*_wrap_branch counts those that take the M' >= N branch)")
         py_red_expected = sum(len(maio_set(n)) for n in range(1, 65)) * 64 * SUPER
         py_full_expected = sum(len(fm[n]) for n in ns) * 63 * len(FULL_FNS)
-        c["exhaustive"] = bool(c["firmware_evaluations"] == fw_expected
+        c["exhaustive"] = bool(py_sweep and c["firmware_evaluations"] == fw_expected
                                and c.get("python_reduced", 0) == py_red_expected
                                and c.get("python_full", 0) == py_full_expected and hist_ok
                                and all(v > 0 for v in tot.get("flavours", [0])) and all(v > 0 for v in htot.get("hist_flavours", [0])))
@@ -596,9 +716,37 @@ def run(ctx):
         cbuild.cleanup(b)
 
 
+def _replay_task(ctx, case):
+    """Fallback of a per-point replay that did not reproduce: the point's outcome depended on the calls
+    made before it in its worker task.  Tasks start from a re-executed toolkit module, so re-running the
+    whole task in this fresh process reproduces it."""
+    global _exe
+    t = case.get("task")
+    if not t:
+        return
+    b = None
+    try:
+        if t[0] in ("red", "hsn0"):
+            b, _exe = _build("c07rt")
+        res = {"red": lambda: _py_red_(t[1]), "hsn0": lambda: _py_hsn0_(t[1]),
+               "full": lambda: _py_full_(tuple(t[1:])), "trx": lambda: _py_trx(t[1])}[t[0]]()
+        for v in res.get("viol", []):
+            if str(v[1].get("impl", "")).startswith(("python", "transceiver")):
+                ctx.violation(v[0], case, v[2] + " [seen when the whole worker task %r is re-run, not for this point alone]" % (t,))
+    finally:
+        if b:
+            cbuild.cleanup(b)
+
+
 def replay(ctx, case):
     global _exe
     impl = case["impl"]
+    if impl == "python-sequence":
+        _, bad = _seq_leg(case["index"])
+        for x in bad:
+            if x[0] == case["index"]:
+                ctx.violation(_seq_key(x[1], x[3]), case, _seq_msg(x))
+        return
     if impl in ("python", "python-reduction"):
         gs = _toolkit()
         hsn, maio, n = case["hsn"], case["maio"], case["n"]
@@ -617,9 +765,11 @@ def replay(ctx, case):
                     ctx.violation("C07:python:reduction:N=%d" % n, case, "resolve differs for equal (HSN xor T1R, T2, T3): %r vs %r" % (got, other))
             if got != ma[want]:
                 ctx.violation(_pykey(hsn, n), case, _pymsg(hsn, maio, n, fn, got, want))
+        if not ctx.violations:
+            _replay_task(ctx, case)
         return
     if impl == "python-history":
-        res = _py_hist([case["fn"]])
+        res = _py_hist(case.get("fns") or [case["fn"]])
         for v in res["viol"]:
             ctx.violation(*v)
         return
@@ -633,11 +783,13 @@ def replay(ctx, case):
         _trx_one(trx, case["hsn"], case["maio"], case["n"], [case["fn"]], res)
         for v in res["viol"]:
             ctx.violation(*v)
+        if not ctx.violations:
+            _replay_task(ctx, case)
         return
     b, _exe = _build("c07r")
     try:
         if impl == "firmware-history":
-            what = ["hist", case["idx"], case["idx"] + 1]
+            what = ["hist", case.get("lo", case["idx"]), case["idx"] + 1]     # the slice's own history up to this FN
             rc, out, err = _fw_run(what)
             _take_hist(ctx, what, rc, out, err, {})
             return
@@ -666,5 +818,9 @@ def replay(ctx, case):
                           "rfch_get_params(hsn=%d maio=%d N=%d fn=%d, MA contents %s) = channel 0x%04x (MA index %s); "
                           "TS 45.002 6.2.3: MAI=%d (C transcription %s) -> channel 0x%04x"
                           % (hsn, maio, n, fn, FLAVOURS[fl], int(f["fw"]), f["fwidx"], want, f["spec"], int(f["want"])))
+        elif case.get("slice"):
+            # not reproduced for the point alone: the result depended on the calls before it in its slice
+            rc, out, err = _fw_run(case["slice"])
+            _take_fw(ctx, case["slice"], rc, out, err, {}, set())
     finally:
         cbuild.cleanup(b)
